@@ -240,6 +240,21 @@ class UCtx:
         for reg in ("_bcdict", "_vardict", "_numfluxdict"):
             attrs[reg] = ObjStub(reg, {"merge": (lambda other: None)})
         self.selfobj = SelfObj(self.cls, attrs)
+        # attributes computed in a constructor from its parameters: typed with the parameters' units
+        init = proj.resolve(self.cls, "__init__")
+        for name, (kind, val) in summ.items():
+            if kind == "expr" and hasattr(val, "env") and name not in attrs:
+                env = {}
+                for nm, b in val.env.items():
+                    if isinstance(b, tuple) and len(b) == 2:
+                        if b[0] == "param" and b[1] in consts:
+                            env[nm] = UVal(dict(consts[b[1]]))
+                        elif b[0] == "const" and isinstance(b[1], (int, float, Fraction)) and not isinstance(b[1], bool):
+                            env[nm] = Fraction(repr(b[1])) if isinstance(b[1], float) else b[1]
+                try:
+                    attrs[name] = self.interp.eval(val.expr, env, init, 0)
+                except AnalysisError:
+                    pass
         self.dim2 = MODELS[key]["dim"] == 2
 
     def state(self, dims):
